@@ -85,6 +85,8 @@ type model struct {
 	preFile   string
 	preLen    int
 	preLabels map[string]*gogen.Label
+
+	afterFailedEndInit bool
 }
 
 type snapshot struct {
@@ -221,12 +223,20 @@ func (m *model) after(op string, a, b int) {
 				// the documented recovery: the stack is back at the innermost block's base
 				m.unknown = false
 				for len(m.frames) > 0 && m.top().kind == "init" {
-					// an initialiser still open after an abort is closed by ResetInit first;
-					// if the front end did not, the model drops it (nothing documented)
+					// an initialiser whose EndInit failed has been closed by EndInit itself
+					// (ResetInit is for initialisers that never reached EndInit): either way
+					// the value-declaration context is the outer one again
+					fr := *m.top()
 					m.frames = m.frames[:len(m.frames)-1]
+					m.closeCheck(cb, fr, "recovery after a failed initialiser")
 				}
 			}
 		case "ResetInit":
+			if m.afterFailedEndInit {
+				// the initialiser frame was already closed by the failing EndInit
+				m.afterFailedEndInit = false
+				return
+			}
 			if t := m.top(); t != nil && t.kind == "init" {
 				m.frames = m.frames[:len(m.frames)-1]
 			}
@@ -246,6 +256,25 @@ func (m *model) after(op string, a, b int) {
 			m.closeCheck(cb, *t, "EndInit")
 			m.depth = t.base
 			m.frames = m.frames[:len(m.frames)-1]
+		case "EndInit!fail":
+			// EndInit reported an error: its deferred cleanup has popped the operands and
+			// ended the initialiser context all the same
+			t := m.top()
+			if t == nil || t.kind != "init" {
+				m.fail("model:endinit", "failed EndInit without an open initialiser")
+				return
+			}
+			fr := *t
+			m.frames = m.frames[:len(m.frames)-1]
+			m.depth = fr.base
+			if got := cb.InternalStack().Len(); got != m.depth {
+				m.fail("failed-endinit-leaves-operands", "EndInit reported an error and left %d elements on the operand stack, the initialiser was opened at %d", got, m.depth)
+				return
+			}
+			m.closeCheck(cb, fr, "EndInit that reported an error")
+			m.out.Probe("failed_endinit_checked")
+			m.afterFailedEndInit = true
+			return
 		case "Then", "TypeAssertThen", "RangeAssignThen":
 			t := m.top()
 			if t == nil {
@@ -470,6 +499,17 @@ func exec1(rec any) *core.Outcome {
 		}
 		out.Violate(P, key, m.viol)
 		return out
+	}
+	if res.Rejected != "" && len(r.Front.Faults) > 0 {
+		// after the documented recovery calls the builder must be as usable as without the
+		// fault: the same record without faults decides
+		f2 := *r.Front
+		f2.Faults = nil
+		twin := env.Build(r.Prog, &f2, nil)
+		if twin.LoadErr == nil && twin.Rejected == "" {
+			out.Violate(P, "unusable-after-recovery", fmt.Sprintf("the build is accepted without the injected faults %v; with them (each followed by its documented recovery call) it fails later with: %s", r.Front.Faults, res.Rejected))
+			return out
+		}
 	}
 	if res.Rejected != "" {
 		out.Observe("program_rejected_by_gogen")
